@@ -487,8 +487,11 @@ def facts_at(ctx: Ctx, f: FunctionInfo, n: Node) -> List[Tuple[str, ast.AST, int
         if b.kind != "branch" or b.ast is None or b.id == n.id or b.id not in dom[n.id]:
             continue
         t, fl = edge_target(g, b, "true"), edge_target(g, b, "false")
-        rt = reachable_from(g, t, NORMAL) if t is not None else set()
-        rf = reachable_from(g, fl, NORMAL) if fl is not None else set()
+        # within the iteration of the loops enclosing the branch: arriving at n again in a LATER iteration re-evaluates b
+        enclosing = {id(fr.node) for fr in b.frames if fr.kind == "loop"}
+        heads = [x.id for x in g.nodes if x.kind in ("loop", "loop_head") and x.ast is not None and id(x.ast) in enclosing]
+        rt = reachable_from(g, t, NORMAL, avoid=heads) if t is not None else set()
+        rf = reachable_from(g, fl, NORMAL, avoid=heads) if fl is not None else set()
         if n.id in rt and n.id not in rf:
             add("true", b.ast, b.id)
         elif n.id in rf and n.id not in rt:
@@ -505,10 +508,10 @@ def null_edges(g: CFG, var: str) -> Set[Tuple[int, int]]:
             continue
         lab = None
         a = b.ast
-        if isinstance(a, ast.Compare) and len(a.ops) == 1 and isinstance(a.left, ast.Name) and a.left.id == var \
+        if isinstance(a, ast.Compare) and len(a.ops) == 1 and dotted(a.left) == var \
                 and isinstance(a.comparators[0], ast.Constant) and a.comparators[0].value is None:
             lab = "true" if isinstance(a.ops[0], (ast.Is, ast.Eq)) else ("false" if isinstance(a.ops[0], (ast.IsNot, ast.NotEq)) else None)
-        elif isinstance(a, ast.Name) and a.id == var:
+        elif isinstance(a, (ast.Name, ast.Attribute)) and dotted(a) == var:
             lab = "false"
         if lab is not None:
             out |= {(b.id, d) for d, l in g.succ[b.id] if l == lab}
@@ -566,3 +569,307 @@ def effective_test(ctx: Ctx, f: FunctionInfo, b: Node):
                     and isinstance(d.ast.value, (ast.Compare, ast.Call, ast.BoolOp, ast.UnaryOp)):
                 return d.ast.value, d.id
     return b.ast, b.id
+
+
+# ----------------------------------------------------------------- scenario evaluation (singleton abstract domain)
+class _Unknown:
+    def __repr__(self) -> str:
+        return "UNKNOWN"
+
+
+UNKNOWN = _Unknown()
+
+
+class MatchVal:
+    """Result of applying a compile-time-constant regex of the package to a scenario string."""
+    def __init__(self, m) -> None:  # type: ignore[no-untyped-def]
+        self.m = m
+
+    def __bool__(self) -> bool:
+        return True
+
+
+class PartialTuple(tuple):
+    """A tuple display some of whose elements could not be evaluated (only membership hits are decidable)."""
+
+
+class EnumVal:
+    """A member of an Enum class of the package (identity = class + member name)."""
+    def __init__(self, cls: str, name: str, value: object) -> None:
+        self.cls, self.name, self.value = cls, name, value
+
+    def __eq__(self, o: object) -> bool:
+        return isinstance(o, EnumVal) and (o.cls, o.name) == (self.cls, self.name)
+
+    def __hash__(self) -> int:
+        return hash((self.cls, self.name))
+
+    def __repr__(self) -> str:
+        return f"{self.cls}.{self.name}"
+
+
+def enum_member(ctx: Ctx, e: ast.AST) -> Optional[EnumVal]:
+    if isinstance(e, ast.Attribute) and isinstance(e.value, ast.Name):
+        for ci in ctx.prog.classes.values():
+            if ci.name == e.value.id and e.attr in ci.consts and isinstance(ci.consts[e.attr], ast.Constant):
+                return EnumVal(ci.name, e.attr, ci.consts[e.attr].value)
+    return None
+
+
+def concrete_eval(ctx: Ctx, f: FunctionInfo, e: Optional[ast.AST], env: Dict[str, object], at: int, depth: int = 0) -> object:
+    """Evaluate an expression under a scenario `env` (variable -> concrete value).  Variables outside the scenario are looked
+    up through a single reaching Assign; anything not understood is UNKNOWN.  Pure, total, no code is executed."""
+    if e is None or depth > 12:
+        return UNKNOWN
+    ev = lambda x, a=at: concrete_eval(ctx, f, x, env, a, depth + 1)  # noqa: E731
+    if isinstance(e, ast.Constant):
+        return e.value
+    if isinstance(e, ast.Name):
+        if e.id in env:
+            return env[e.id]
+        g = ctx.cfg(f)
+        defs = ctx.rd(f).reaching(at, e.id)
+        if len(defs) == 1:
+            d = next(iter(defs))
+            dn = g.nodes[d]
+            if d != g.entry and dn.kind == "stmt" and isinstance(dn.ast, ast.Assign) and len(dn.ast.targets) == 1 \
+                    and isinstance(dn.ast.targets[0], ast.Name):
+                return concrete_eval(ctx, f, dn.ast.value, env, d, depth + 1)
+            if d != g.entry and dn.kind == "stmt" and isinstance(dn.ast, ast.Assign) and len(dn.ast.targets) == 1 \
+                    and isinstance(dn.ast.targets[0], (ast.Tuple, ast.List)):
+                elts = dn.ast.targets[0].elts
+                idx = next((i for i, t in enumerate(elts) if isinstance(t, ast.Name) and t.id == e.id), None)
+                v = concrete_eval(ctx, f, dn.ast.value, env, d, depth + 1)
+                if idx is not None and isinstance(v, (tuple, list)) and len(v) == len(elts):
+                    return v[idx]
+        return UNKNOWN
+    if isinstance(e, ast.Attribute):
+        dn_ = dotted(e)
+        if dn_ and dn_ in env:
+            return env[dn_]
+        em = enum_member(ctx, e)
+        if em is not None:
+            return em
+        base = ev(e.value)
+        if isinstance(base, EnumVal) and e.attr == "value":
+            return base.value
+        if isinstance(base, EnumVal) and e.attr == "name":
+            return base.name
+        return UNKNOWN
+    if isinstance(e, ast.IfExp):
+        t = ev(e.test)
+        if t is UNKNOWN:
+            a, b = ev(e.body), ev(e.orelse)
+            return a if (a is not UNKNOWN and a == b) else UNKNOWN
+        return ev(e.body) if t else ev(e.orelse)
+    if isinstance(e, ast.UnaryOp) and isinstance(e.op, ast.Not):
+        v = ev(e.operand)
+        return UNKNOWN if v is UNKNOWN else (not v)
+    if isinstance(e, ast.BoolOp):
+        is_and = isinstance(e.op, ast.And)
+        unknown = False
+        last: object = is_and
+        for x in e.values:
+            v = ev(x)
+            if v is UNKNOWN:
+                unknown = True
+                continue
+            if is_and and not v:
+                return v
+            if not is_and and v:
+                return v
+            last = v
+        return UNKNOWN if unknown else last
+    if isinstance(e, ast.Compare) and len(e.ops) == 1:
+        a, b = ev(e.left), ev(e.comparators[0])
+        if a is UNKNOWN or b is UNKNOWN:
+            return UNKNOWN
+        if isinstance(a, PartialTuple) or (isinstance(b, PartialTuple) and not isinstance(e.ops[0], (ast.In, ast.NotIn))):
+            return UNKNOWN
+        op = e.ops[0]
+        try:
+            if isinstance(op, (ast.Lt, ast.LtE, ast.Gt, ast.GtE)) and isinstance(a, (int, float)) and isinstance(b, (int, float)):
+                return {ast.Lt: a < b, ast.LtE: a <= b, ast.Gt: a > b, ast.GtE: a >= b}[type(op)]
+            if isinstance(op, ast.Eq):
+                return a == b
+            if isinstance(op, ast.NotEq):
+                return a != b
+            if isinstance(op, ast.Is):
+                return (a == b) if isinstance(a, EnumVal) or isinstance(b, EnumVal) or a is None or b is None else UNKNOWN
+            if isinstance(op, ast.IsNot):
+                return (a != b) if isinstance(a, EnumVal) or isinstance(b, EnumVal) or a is None or b is None else UNKNOWN
+            if isinstance(op, (ast.In, ast.NotIn)):
+                if isinstance(b, PartialTuple):
+                    hit = any(x is not UNKNOWN and x == a for x in b)
+                    if not hit:
+                        return UNKNOWN
+                    return isinstance(op, ast.In)
+                res = a in b  # type: ignore[operator]
+                return res if isinstance(op, ast.In) else not res
+        except Exception:
+            return UNKNOWN
+        return UNKNOWN
+    if isinstance(e, (ast.Tuple, ast.List, ast.Set)):
+        vals = [ev(x) for x in e.elts]
+        return PartialTuple(vals) if any(v is UNKNOWN for v in vals) else tuple(vals)
+    if isinstance(e, ast.Subscript):
+        v = ev(e.value)
+        if isinstance(v, (tuple, list, str)) and not isinstance(v, PartialTuple):
+            if isinstance(e.slice, ast.Slice):
+                lo = ev(e.slice.lower) if e.slice.lower is not None else None
+                hi = ev(e.slice.upper) if e.slice.upper is not None else None
+                if lo is UNKNOWN or hi is UNKNOWN or e.slice.step is not None:
+                    return UNKNOWN
+                try:
+                    return v[lo:hi]  # type: ignore[misc]
+                except Exception:
+                    return UNKNOWN
+            i = ev(e.slice)
+            if isinstance(i, int) and not isinstance(i, bool) and -len(v) <= i < len(v):
+                return v[i]
+        return UNKNOWN
+    if isinstance(e, ast.UnaryOp) and isinstance(e.op, ast.USub):
+        v = ev(e.operand)
+        return -v if isinstance(v, (int, float)) and not isinstance(v, bool) else UNKNOWN
+    if isinstance(e, ast.BinOp) and isinstance(e.op, ast.Add):
+        a, b = ev(e.left), ev(e.right)
+        if isinstance(a, str) and isinstance(b, str):
+            return a + b
+        if isinstance(a, (int, float)) and isinstance(b, (int, float)) and not isinstance(a, bool) and not isinstance(b, bool):
+            return a + b
+        return UNKNOWN
+    if isinstance(e, ast.JoinedStr):
+        out = []
+        for part in e.values:
+            if isinstance(part, ast.Constant):
+                out.append(str(part.value))
+            elif isinstance(part, ast.FormattedValue) and part.format_spec is None and part.conversion == -1:
+                v = ev(part.value)
+                if not isinstance(v, (str, int)) or isinstance(v, bool):
+                    return UNKNOWN
+                out.append(str(v))
+            else:
+                return UNKNOWN
+        return "".join(out)
+    if isinstance(e, ast.Call):
+        fn = e.func
+        if isinstance(fn, ast.Name) and fn.id == "isinstance" and len(e.args) == 2:
+            v = ev(e.args[0])
+            if v is UNKNOWN:
+                return UNKNOWN
+            types = e.args[1].elts if isinstance(e.args[1], ast.Tuple) else [e.args[1]]
+            names = {dotted(t) for t in types}
+            if isinstance(v, EnumVal):
+                return v.cls in names or "Enum" in names
+            py = {"str": str, "int": int, "float": float, "bool": bool, "bytes": bytes, "dict": dict, "list": list, "tuple": tuple}
+            known = [py[n] for n in names if n in py]
+            if any(isinstance(v, t) for t in known):
+                return True
+            return False if len(known) == len(names) or not isinstance(v, EnumVal) and all(n not in py for n in names) else UNKNOWN
+        if isinstance(fn, ast.Name) and fn.id == "str" and len(e.args) == 1:
+            v = ev(e.args[0])
+            return v if isinstance(v, str) else UNKNOWN
+        if isinstance(fn, ast.Name) and fn.id == "bool" and len(e.args) == 1:
+            v = ev(e.args[0])
+            return UNKNOWN if v is UNKNOWN else bool(v)
+        if isinstance(fn, ast.Name) and fn.id == "len" and len(e.args) == 1:
+            v = ev(e.args[0])
+            return len(v) if isinstance(v, (tuple, list, str, dict, set, frozenset)) else UNKNOWN
+        if isinstance(fn, ast.Attribute) and fn.attr in ("lower", "upper", "strip") and not e.args:
+            v = ev(fn.value)
+            return getattr(v, fn.attr)() if isinstance(v, str) else UNKNOWN
+        if isinstance(fn, ast.Attribute) and fn.attr in ("replace", "rsplit", "split", "rpartition", "partition", "lstrip", "rstrip",
+                                                          "startswith", "endswith", "isdigit", "isascii", "isdecimal") and not e.keywords:
+            v = ev(fn.value)
+            args = [ev(a) for a in e.args]
+            if isinstance(v, str) and all(isinstance(a, (str, int, tuple)) and not isinstance(a, PartialTuple) for a in args):
+                try:
+                    r_ = getattr(v, fn.attr)(*args)
+                    return tuple(r_) if isinstance(r_, list) else r_
+                except Exception:
+                    return UNKNOWN
+            return UNKNOWN
+        if isinstance(fn, ast.Attribute) and fn.attr in ("match", "fullmatch", "search") and isinstance(fn.value, ast.Name) and len(e.args) == 1:
+            # <MODULE_REGEX>.match(<scenario string>) with MODULE_REGEX = re.compile(<constant pattern>)
+            cdef = f.module.consts.get(fn.value.id)
+            v = ev(e.args[0])
+            if isinstance(cdef, ast.Call) and (dotted(cdef.func) or "") == "re.compile" and cdef.args and isinstance(v, str):
+                pat = ctx.prog.const_str(cdef.args[0], f.module, f)
+                if pat is not None:
+                    import re as _re
+                    try:
+                        mm_ = getattr(_re.compile(pat), fn.attr)(v)
+                    except Exception:
+                        return UNKNOWN
+                    return MatchVal(mm_) if mm_ is not None else None
+            return UNKNOWN
+        if isinstance(fn, ast.Attribute) and fn.attr == "group" and len(e.args) <= 1:
+            v = ev(fn.value)
+            i = ev(e.args[0]) if e.args else 0
+            if isinstance(v, MatchVal) and isinstance(i, (int, str)):
+                try:
+                    return v.m.group(i)
+                except Exception:
+                    return UNKNOWN
+            return UNKNOWN
+        if isinstance(fn, ast.Name) and fn.id == "int" and len(e.args) == 1:
+            v = ev(e.args[0])
+            try:
+                return int(v) if isinstance(v, (str, int)) and not isinstance(v, bool) else UNKNOWN
+            except Exception:
+                return UNKNOWN
+        if isinstance(fn, ast.Attribute) and (dotted(fn) or "") in ("os.path.basename", "os.path.dirname") and len(e.args) == 1:
+            v = ev(e.args[0])
+            if isinstance(v, str):
+                import posixpath
+                return posixpath.basename(v) if fn.attr == "basename" else posixpath.dirname(v)
+            return UNKNOWN
+        if isinstance(fn, ast.Name):
+            # EnumClass(value)
+            for ci in ctx.prog.classes.values():
+                if ci.name == fn.id and len(e.args) == 1:
+                    v = ev(e.args[0])
+                    for nm, cv in ci.consts.items():
+                        if isinstance(cv, ast.Constant) and v is not UNKNOWN and cv.value == v:
+                            return EnumVal(ci.name, nm, cv.value)
+        return UNKNOWN
+    return UNKNOWN
+
+
+def scenario_walk(ctx: Ctx, f: FunctionInfo, starts: Iterable[int], env: Dict[str, object],
+                  stop: Iterable[int] = ()) -> Tuple[Set[int], bool]:
+    """Nodes reachable from `starts` (normal edges) when every branch whose condition evaluates under the scenario is taken
+    accordingly.  Returns (reached node ids, undecided) - undecided: some branch mentioning a scenario variable could not
+    be evaluated (both edges were followed)."""
+    g = ctx.cfg(f)
+    seen: Set[int] = set()
+    work = list(starts)
+    stop_set = set(stop)
+    undecided = False
+    while work:
+        x = work.pop()
+        if x in seen:
+            continue
+        seen.add(x)
+        if x in stop_set:
+            continue
+        nx = g.nodes[x]
+        if nx.kind == "branch" and nx.ast is not None:
+            v = concrete_eval(ctx, f, nx.ast, env, nx.id)
+            if v is UNKNOWN and ((set(names_in(nx.ast)) & set(env)) or (set(ctx.slicer(f).origins(nx.ast, nx.id)["names"]) & set(env))):
+                undecided = True
+            for d, l in g.succ[x]:
+                if l in NORMAL and (v is UNKNOWN or l not in ("true", "false") or l == ("true" if v else "false")):
+                    work.append(d)
+            continue
+        work.extend(d for d, l in g.succ[x] if l in NORMAL)
+    return seen, undecided
+
+
+def known_flag(ctx: Ctx, f: FunctionInfo, n: Node, attr: str) -> Optional[bool]:
+    """Is a capability flag (`<x>.attr` or a local set from it) known true / false on arrival at n?  None = not decided."""
+    val: Optional[bool] = None
+    for pol, e, _at in facts_at(ctx, f, n):
+        if pol in ("true", "false") and isinstance(e, (ast.Attribute, ast.Name)) and (dotted(e) or "").split(".")[-1] == attr:
+            val = (pol == "true")
+    return val
